@@ -733,3 +733,15 @@ Proof.
   rewrite !sumR_cons. cbn [fst snd]. rewrite IH by lia.
   rewrite normal_logpdf_rsample by (pose proof (exp_pos s); lra). rewrite ln_exp. reflexivity.
 Qed.
+
+(* MultiCategorical: th.split cuts the flat logits into consecutive pieces (model mutation score: pins skipn) *)
+Lemma firstn_plus {A} (l : list A) : forall n m, firstn (n + m) l = firstn n l ++ firstn m (skipn n l).
+Proof. induction l as [|a t IH]; intros [|n] m; cbn; try reflexivity; [destruct m; reflexivity | rewrite IH; reflexivity]. Qed.
+
+Lemma split_logits_concat sizes : forall flat,
+  concat (split_logits sizes flat) = firstn (fold_right Nat.add 0%nat sizes) flat /\
+  length (split_logits sizes flat) = length sizes.
+Proof.
+  induction sizes as [|n t IH]; intros flat; cbn [split_logits concat fold_right length]; [split; reflexivity|].
+  destruct (IH (skipn n flat)) as [H1 H2]. rewrite H1, H2, firstn_plus. split; reflexivity.
+Qed.
